@@ -242,10 +242,10 @@ Section Inv.
          revert Ec. generalize r0. change (norej (q <- a_div exact (sr_num rr) (sr_den rr);;
                                                    q1 <- pos_unwrap Site.ratio_to_pos q;;
                                                    l <- neg_mul_pos exact loss q1;;
-                                                   c0 <- eff_cent exact l;; neg_unwrap Site.eff_cent c0)).
+                                                   c0 <- eff_cent exact l;; lez_unwrap Site.eff_cent c0)).
          apply norej_bind; [apply norej_ops|intros]. apply norej_bind; [apply norej_unwrap|intros].
          apply norej_bind; [apply norej_pos|intros]. apply norej_bind; [apply eff_cent_norej|intros].
-         apply norej_unwrap. }
+         unfold lez_unwrap. destruct (Qcltb _ _); nr. }
     destruct spec as [[sv force]|].
     - destruct force; cbn [bind a_sub exact] in H.
       + destruct (negb _); [discriminate|].
@@ -260,8 +260,7 @@ Section Inv.
         destruct (pos_mul exact _ sold) eqn:E2; cbn [bind] in H; try discriminate H.
         nrx E2.
     - destruct m as [rr|]; [|discriminate H].
-      destruct (neg_unwrap _ calc) eqn:E1; cbn [bind] in H; try discriminate H;
-        [|nrx E1].
+      destruct (negb (Qcltb calc 0)); [discriminate H|].
       destruct (gen_sfla exact t _ _) eqn:E2; cbn [bind] in H; try discriminate H.
       nrx E2.
   Qed.
@@ -416,7 +415,8 @@ Section AffPred.
       + bind_as Em as u0 Eu0. destruct (negb (Qcltb sv 0)); [discriminate|].
         bind_as Em as q Eq. bind_as Em as nn En. inversion Em; constructor.
       + destruct mm as [r|]; [|discriminate].
-        bind_as Em as c0 Ec0. bind_as Em as txs Et. inversion Em; subst.
+        destruct (negb (Qcltb calc 0)); [discriminate|].
+        bind_as Em as txs Et. inversion Em; subst.
         eapply gen_sfla_P; eauto.
         (* portions of r: affiliates are buyers of the scan *)
         unfold sfl_info in Ei.
